@@ -89,10 +89,11 @@ class _OutOfFuel(Exception):
 
 class Result:
     """values: tuple of result values (each possibly POISON) | POISON (whole run) | OUT_OF_FUEL."""
-    __slots__ = ("values", "effects", "ub", "steps", "trips", "why", "npoison")
+    __slots__ = ("values", "effects", "ub", "steps", "trips", "why", "npoison", "args")
 
     def __init__(self, values, effects, ub=(), steps=0, trips=(), why="", npoison=0):
         self.npoison = npoison      # executed operations that produced a POISON result (used or not)
+        self.args = ()              # normalised arguments after the run (MemRef arguments show the final buffers)
         self.values = values
         self.effects = list(effects)
         self.ub = list(ub)          # immediate-UB events ("arith.divsi by zero", ...)
@@ -1141,7 +1142,8 @@ def run_function(module, name: str, args, index_bits: int = 64, fuel: int = 1000
     trace: optional list; (op, operand values) is appended for every operation in execution order.
 
     args: ints (any representative of the bit pattern; bools allowed), floats, MemRef objects or plain
-    lists for memref arguments (MemRef arguments are mutated in place: inspect them after the run).
+    lists for memref arguments (MemRef arguments are mutated in place; `Result.args` holds the normalised
+    arguments after the run, so the final contents of memref arguments can be compared).
     Raises UnsupportedOp for IR refsem has no semantics for; never raises for UB (-> POISON)."""
     ev = _Eval(module, index_bits, fuel, trace)
     fop = ev.funcs.get(name)
@@ -1155,11 +1157,13 @@ def run_function(module, name: str, args, index_bits: int = 64, fuel: int = 1000
     nargs = tuple(_norm_arg(v, type_name(a.type), index_bits) for v, a in zip(args, blk.args))
     try:
         vals = ev.call(fop, nargs)
-        return Result(tuple(vals), ev.effects, ev.ub, ev.steps, ev.trips, npoison=ev.npoison)
+        res = Result(tuple(vals), ev.effects, ev.ub, ev.steps, ev.trips, npoison=ev.npoison)
     except _PoisonRun as e:
-        return Result(POISON, ev.effects, ev.ub, ev.steps, ev.trips, why=str(e), npoison=ev.npoison)
+        res = Result(POISON, ev.effects, ev.ub, ev.steps, ev.trips, why=str(e), npoison=ev.npoison)
     except (_OutOfFuel, RecursionError):
-        return Result(OUT_OF_FUEL, ev.effects, ev.ub, ev.steps, ev.trips, why="fuel", npoison=ev.npoison)
+        res = Result(OUT_OF_FUEL, ev.effects, ev.ub, ev.steps, ev.trips, why="fuel", npoison=ev.npoison)
+    res.args = nargs
+    return res
 
 
 def run_function_any_index(module, name: str, args, fuel: int = 100000) -> Result:
